@@ -171,6 +171,14 @@ def try_gen(rng, st):
               "repeat": {"count": rng.choice([2, 3]), "stride": rng.choice([1, -1, 10, 0])} if rng.random() < 0.3 else None}
         objs.append(adef.mk_ref(nm.fresh(), tb["name"], ov))
         st["block_refs"] += 1
+        if rng.random() < 0.5:
+            # a SECOND ref to the same block, declared later and placed further out (or on the other side): every
+            # instantiation of a block counts, not only the first one a walk meets (seed C13-11: a never-emptied set of
+            # "already followed" targets)
+            far = rng.choice([delta, bound // 2, span // 2, -(span // 2), delta + 7, bound - 3])
+            if in_i64(far):
+                objs.append(adef.mk_ref(nm.fresh(), tb["name"], {"kind": "block", "address_offset": far, "repeat": None}))
+                st["block_refs_second"] += 1
     # ---- config
     cfg = {}
     for k in ("register", "command", "buffer"):
